@@ -155,6 +155,7 @@ func New(opts ...Option) *Container {
 	for _, opt := range opts {
 		opt.applyOption(c)
 	}
+	verifTraceNew(c)
 	return c
 }
 
